@@ -363,3 +363,28 @@ PROPS['C20'] = {
     'outside': ['buffers longer than 44 bytes (3 table entries + 8 body bytes)', 'file-based (unbundle) bundles', 'split_ram_bundle',
                 'parse_indexed_from_vec / from_path (same parser behind an owned Cow)'],
 }
+
+C10_STUBS = 'S1 (Vec::new capacity 8 / Vec::push without reallocation), S2 (core::slice::sort::unstable::sort -> insertion sort)'
+
+PROPS['C10'] = {
+    'title': 'adjust_mappings composes the two maps interval by interval',
+    'functions': ['types::SourceMap::adjust_mappings (incl. create_ranges)'],
+    'harnesses': [
+        H('c10_1x1_full30', 'types', 'quick', 1500, 12, '1 original x 1 adjustment token, all fields < 2^30',
+          allow_uncovered=['every pair overlaps', 'duplicated', 'out of order']),
+        H('c10_2x0', 'types', 'quick', 600, 8, '2 original tokens, empty adjustment map', nocover=True),
+        H('c10_0x2', 'types', 'quick', 600, 8, 'empty original map, 2 adjustment tokens', nocover=True),
+        H('c10_2x1_full30', 'types', 'quick', 2400, 14, '2 original x 1 adjustment token, any order, duplicates allowed, fields < 2^30',
+          allow_uncovered=['duplicated adjustment', 'out of order']),
+        H('c10_1x2_full30', 'types', 'quick', 2400, 14, '1 original x 2 adjustment tokens, any order, duplicates allowed, fields < 2^30',
+          allow_uncovered=['duplicated original']),
+        H('c10_2x1_g2x8', 'types', 'thorough', 2400, 14, '2 x 1 on a 2-line x 8-column grid', allow_uncovered=['duplicated adjustment', 'out of order']),
+        H('c10_1x2_g2x8', 'types', 'thorough', 2400, 14, '1 x 2 on a 2-line x 8-column grid', allow_uncovered=['duplicated original']),
+        H('c10_2x2_g2x8', 'types', 'thorough', 7200, 28, '2 x 2 on a 2-line x 8-column grid'),
+    ],
+    'assumptions': ['fields < 2^30 (the implementation computes displacements in i32; beyond that the casts wrap - outside the stated grids)',
+                    'which of two tokens sharing a start carries the stretch is unspecified (unstable sort): the oracle accepts either',
+                    C10_STUBS],
+    'trusted': [C10_STUBS],
+    'outside': ['more than 3 tokens in total in the quick tier (2x2 thorough)', 'lines/columns >= 2^30', 'contents/sources beyond "untouched" struct fields'],
+}
